@@ -595,6 +595,9 @@ def r3(ctx: Ctx, rid: str) -> None:
             t = norm_text(e)
             if "lease_seconds" in t:
                 return "seconds"
+            called = False
+            if isinstance(e, ast.Call) and not e.args and not e.keywords and isinstance(e.func, ast.Attribute):
+                e, called = e.func, True  # a property the audited tree did not have is read as a parameterless method (model.py)
             if isinstance(e, ast.Attribute) and isinstance(e.value, ast.Name) and e.value.id == "self":
                 for c in [cls] + [ctx.prog.classes[b] for b in cls.base_names if b in ctx.prog.classes]:
                     # an attribute set once in a constructor: `self.lease = timedelta(seconds=lease_seconds)`
@@ -608,7 +611,7 @@ def r3(ctx: Ctx, rid: str) -> None:
                             and "/" not in kws["seconds"]
                         return "timedelta" if good else "timedelta-wrong-unit"
                     pm = c.methods.get(e.attr)
-                    if pm is not None and any((dotted(d) or "") == "property" for d in getattr(pm.node, "decorator_list", [])):
+                    if pm is not None and (called or any((dotted(d) or "") == "property" for d in getattr(pm.node, "decorator_list", []))):
                         rets = [x.value for x in ast.walk(pm.node) if isinstance(x, ast.Return) and x.value is not None]
                         if len(rets) == 1 and isinstance(rets[0], ast.Call) and (dotted(rets[0].func) or "").split(".")[-1] == "timedelta" \
                                 and "lease_seconds" in norm_text(rets[0]):
